@@ -1471,6 +1471,85 @@ theorem hCore_spec (s : HState κ ι π ν) (v : State κ GroupV CompV ι (MsgV 
       rw [hw2, hw3]
       rfl
 
+/-! ### extra writes -/
+
+/-- THE WRITE DISCIPLINE: whatever an operation writes beyond what the code as modelled writes, it
+    never writes to a cell reachable from a cache or from a kept message. -/
+def Disciplined (W : Writes κ ι π ν φ) : Prop :=
+  ∀ (op : Op ι φ) (s : HState κ ι π ν), Sep s → ∀ w ∈ W op s, ¬ Protected s w.1
+
+theorem write_frame (s : HState κ ι π ν) (r0 : Ref) (o : HObj π ν) (hs : Sep s) (hn : ¬ Protected s r0) :
+    Sep (write s r0 o) ∧ abs (write s r0 o) = abs s ∧ (∀ x, Protected (write s r0 o) x → Protected s x) := by
+  have fr : ∀ r, IsRoot s r → view ((r0, o) :: s.heap) r = view s.heap r ∧ LookEq s.heap ((r0, o) :: s.heap) (footOf s.heap r) := by
+    intro r hr
+    refine ⟨view_write_ne _ _ _ _ ?_, ?_⟩
+    · intro e; exact hn ⟨r, hr, e ▸ foot_self⟩
+    · intro x hx
+      refine look_of_view (view_write_ne _ _ _ _ ?_)
+      intro e; exact hn ⟨r, hr, e ▸ hx⟩
+  have f4 := fun r hr => frame4 (fr r hr).1 (fr r hr).2
+  refine ⟨⟨?_, hs.keyOfRoot, ?_⟩, ?_, ?_⟩
+  · intro r hr x hx
+    have hr' : IsRoot s r := hr
+    have e : footOf (write s r0 o).heap r = footOf s.heap r := (f4 r hr').2.2.2
+    rw [e] at hx
+    exact hs.closed r hr' x hx
+  · intro p hp
+    obtain ⟨c, dl, ld, t, pl, ns, w, e⟩ := hs.msgRoot p hp
+    exact ⟨c, dl, ld, t, pl, ns, w, ((fr p.2 (Or.inr (Or.inr ⟨p, hp, rfl⟩))).1).trans e⟩
+  · unfold abs
+    show State.mk _ _ _ = State.mk _ _ _
+    congr 1
+    · apply List.map_congr_left
+      intro p hp
+      rw [show (write s r0 o).heap = (r0, o) :: s.heap from rfl, (f4 p.2 (Or.inl ⟨p, hp, rfl⟩)).1]
+    · funext c
+      apply List.map_congr_left
+      intro p hp
+      rw [show (write s r0 o).heap = (r0, o) :: s.heap from rfl, (f4 p.2 (Or.inr (Or.inl ⟨c, p, hp, rfl⟩))).2.1]
+    · apply List.map_congr_left
+      intro p hp
+      rw [show (write s r0 o).heap = (r0, o) :: s.heap from rfl, (f4 p.2 (Or.inr (Or.inr ⟨p, hp, rfl⟩))).2.2.1]
+  · intro x hx
+    obtain ⟨r, hr, hxr⟩ := hx
+    have hr' : IsRoot s r := hr
+    have e : footOf (write s r0 o).heap r = footOf s.heap r := (f4 r hr').2.2.2
+    rw [e] at hxr
+    exact ⟨r, hr', hxr⟩
+
+theorem applyWrites_frame (ws : List (Ref × HObj π ν)) :
+    ∀ (s : HState κ ι π ν), Sep s → (∀ w ∈ ws, ¬ Protected s w.1) →
+    Sep (applyWrites s ws) ∧ abs (applyWrites s ws) = abs s := by
+  induction ws with
+  | nil => intro s hs _; exact ⟨hs, rfl⟩
+  | cons w ws ih =>
+    intro s hs hn
+    obtain ⟨a, b, c⟩ := write_frame s w.1 w.2 hs (hn w (by simp))
+    obtain ⟨a', b'⟩ := ih (write s w.1 w.2) a (fun w' hw' hp => hn w' (by simp [hw']) (c _ hp))
+    exact ⟨a', b'.trans b⟩
+
+theorem hStep_spec (W : Writes κ ι π ν φ) (hW : Disciplined W) (s : HState κ ι π ν)
+    (v : State κ GroupV CompV ι (MsgV π) ν) (op : Op ι φ) (hs : Sep s) (hv : Sim s v) :
+    Sep (hStep H W s op).1 ∧ Sim (hStep H W s op).1 (step H.toParams v op).1 ∧
+    (hStep H W s op).2 = (step H.toParams v op).2 := by
+  obtain ⟨a, b, c⟩ := hCore_spec H s v op hs hv
+  obtain ⟨a', b'⟩ := applyWrites_frame (W op (hCore H s op).1) (hCore H s op).1 a (hW op _ a)
+  exact ⟨a', sim_of_abs b b', c⟩
+
+theorem hRun_spec (W : Writes κ ι π ν φ) (hW : Disciplined W) (ops : List (Op ι φ)) :
+    ∀ (s : HState κ ι π ν) (v : State κ GroupV CompV ι (MsgV π) ν), Sep s → Sim s v →
+    Sep (hRun H W s ops).1 ∧ Sim (hRun H W s ops).1 (run H.toParams v ops).1 ∧
+    (hRun H W s ops).2 = (run H.toParams v ops).2 := by
+  induction ops with
+  | nil => intro s v hs hv; exact ⟨hs, hv, rfl⟩
+  | cons op ops ih =>
+    intro s v hs hv
+    obtain ⟨a, b, c⟩ := hStep_spec H W hW s v op hs hv
+    obtain ⟨a', b', c'⟩ := ih _ _ a b
+    refine ⟨a', b', ?_⟩
+    show (hStep H W s op).2 :: _ = (step H.toParams v op).2 :: _
+    rw [c, c']
+
 end Proc
 
 end Bufr.Heap
